@@ -118,8 +118,8 @@ Proof.
 Qed.
 
 (* untrusted input: opening a box or a sealed box never panics *)
-Theorem box_open_total mbuf c n pk sk : (length c - 16 <= length mbuf)%nat -> fst (open_easy mbuf c n pk sk) <> Panic.
-Proof. intros H. rewrite box_open_is_secretbox. now apply sb_open_easy_total. Qed.
+Theorem box_open_total mbuf c n pk sk : fst (open_easy mbuf c n pk sk) <> Panic.
+Proof. rewrite box_open_is_secretbox. apply sb_open_easy_total. Qed.
 
 Theorem box_open_inplace_total cbuf n pk sk : fst (open_easy_inplace cbuf n pk sk) <> Panic.
 Proof. rewrite box_open_inplace_is_secretbox. apply sb_open_easy_inplace_total. Qed.
@@ -138,7 +138,7 @@ Proof.
   destruct (Nat.ltb_spec (length c) 48); [cbn [fst]; discriminate|].
   destruct (Nat.eqb_spec (length mbuf) (length c - 48)) as [E|E]; cbn [negb]; [|cbn [fst]; discriminate].
   destruct (seal_nonce_ok (firstn 32 c) rpk) as [nonce En]. rewrite En.
-  apply box_open_total. rewrite skipn_length. lia.
+  apply box_open_total.
 Qed.
 
 Theorem failed_seal_open mbuf c rpk rsk :
